@@ -215,7 +215,7 @@ Proof.
     + split.
       * intros i Hi. rewrite fget_fset_other by (cbn; congruence).
         destruct (N.eq_dec i 0) as [->|Hi0]; [congruence|]. apply Hoth. exact Hi0.
-      * intros _. rewrite (fget_fset (mkFabric n0 (s_root st) nid (s_key st) [ADMIN])). cbn [f_idx].
+      * intros _. rewrite (fget_fset (mkFabric n0 (s_root st) nid (s_key st) [ADMIN] 0 VENDOR)). cbn [f_idx].
         rewrite N.eqb_refl. discriminate.
   - (* PASE session already upgraded: impossible, AddNOC of this period would be flagged *)
     exfalso. apply N.eqb_neq in Heqb4. apply sess_ctx_pase in Heqo. destruct Heqo as [Hps _].
@@ -230,7 +230,7 @@ Proof.
     + split.
       * intros i Hi. rewrite fget_fset_other by (cbn; congruence).
         destruct (N.eq_dec i n) as [->|Hin]; [exact Hor|]. apply Hoth. exact Hin.
-      * intros _. rewrite (fget_fset (mkFabric n0 (s_root st) nid (s_key st) [ADMIN])). cbn [f_idx].
+      * intros _. rewrite (fget_fset (mkFabric n0 (s_root st) nid (s_key st) [ADMIN] 0 VENDOR)). cbn [f_idx].
         rewrite N.eqb_refl. discriminate.
 Qed.
 
@@ -281,6 +281,58 @@ Proof.
     rewrite Heqf0. unfold kv_apply. sp. split.
     + intros i Hi. rewrite !fget_fset. cbn [f_idx]. destruct (f_idx f =? i); auto.
     + intros Hn0. rewrite fget_fset_other; auto. cbn [f_idx]. congruence.
+Qed.
+
+(** a write of one fabric's record: staged in RAM while the fail-safe is armed for that fabric ... *)
+Lemma inv_stage : forall st sfab fl fb nf,
+  Inv st -> s_fs st = Armed sfab fl -> sfab <> 0 ->
+  fget sfab (s_fabs st) = Some fb -> f_idx nf = sfab ->
+  Inv (set_fabs st (fset nf (s_fabs st))).
+Proof.
+  intros st sfab fl fb nf (H0 & Hk0 & Hp & Hfs) Hf Hnz Hg Hidx.
+  pose proof Hfs as Hfs'. rewrite Hf in Hfs'. destruct Hfs' as [Hoth Hex].
+  apply inv_intro; sp; try assumption.
+  all: try (rewrite fget_fset_other by congruence; assumption).
+  all: try (unfold pase_ok in *; sp; exact Hp).
+  rewrite Hf. split.
+  - intros i Hi. rewrite fget_fset_other by congruence. apply Hoth. exact Hi.
+  - intros _. rewrite fget_fset. rewrite Hidx, N.eqb_refl. discriminate.
+Qed.
+
+(** ... or written to RAM and to the store in the same step *)
+Lemma inv_store_both : forall st sfab fb nf,
+  Inv st -> sfab <> 0 -> fget sfab (s_fabs st) = Some fb -> f_idx nf = sfab ->
+  Inv (set_kv (set_fabs st (fset nf (s_fabs st))) (kv_apply (s_kv st) (KStoreFab nf))).
+Proof.
+  intros st sfab fb nf (H0 & Hk0 & Hp & Hfs) Hnz Hg Hidx.
+  apply inv_intro; unfold kv_apply; sp.
+  all: try (rewrite fget_fset_other by congruence; assumption).
+  all: try (unfold pase_ok in *; sp; exact Hp).
+  destruct (s_fs st) as [|f fl] eqn:Ef.
+  - destruct Hfs as [[Hs Hn] Hb]. unfold ram_synced, cfg_eq, load_nets in *. sp.
+    repeat split; auto. intro i. rewrite !fget_fset. destruct (f_idx nf =? i); auto.
+  - destruct Hfs as [Hoth Hex]. split.
+    + intros i Hi. rewrite !fget_fset. destruct (f_idx nf =? i); auto.
+    + intros Hn0. rewrite fget_fset. destruct (f_idx nf =? f) eqn:E; [discriminate|]. auto.
+Qed.
+
+Lemma step_inv_label : forall st s l, Inv st -> Inv (fst (step st (OLabel s l false))).
+Proof.
+  intros st s l HI. unfold step. dm; cbn [fst]; try assumption.
+  all: apply N.eqb_neq in Heqb0; pose proof (fget_idx _ _ _ Heqo0) as Hidx.
+  - eapply inv_store_both; eauto.
+  - apply N.eqb_eq in Heqb3. subst fab. eapply inv_stage; eauto.
+  - eapply inv_store_both; eauto.
+Qed.
+
+Lemma step_inv_vid : forall st s v, Inv st -> Inv (fst (step st (OVid s v false))).
+Proof.
+  intros st s v HI. unfold step. dm; cbn [fst]; try assumption.
+  all: apply N.eqb_neq in Heqb0; pose proof (fget_idx _ _ _ Heqo0) as Hidx.
+  - eapply inv_store_both; eauto.
+  - apply andb_true_iff in Heqb2. destruct Heqb2 as [Hb _]. apply N.eqb_eq in Hb. subst fab.
+    eapply inv_stage; eauto.
+  - eapply inv_store_both; eauto.
 Qed.
 
 Lemma step_inv_net : forall st o,
@@ -420,6 +472,8 @@ Proof.
   - apply step_inv_addnoc; auto.
   - apply step_inv_updnoc; auto.
   - cbn in Hg. subst fail. apply step_inv_aclw; auto.
+  - cbn in Hg. subst fail. apply step_inv_label; auto.
+  - cbn in Hg. subst fail. apply step_inv_vid; auto.
   - apply step_inv_net; eauto.
   - apply step_inv_net; eauto.
   - apply step_inv_complete; auto.
